@@ -183,7 +183,7 @@ func (m *refModel) apply(v *LedgerView, b *refBatch, h uint32, withRates bool) (
 		return -1
 	}
 	// admission, transaction by transaction
-	for _, t := range b.txs {
+	for ti, t := range b.txs {
 		if t.Amount > m.get(in, t.Asset) {
 			return pegnet.InsufficientBalanceErrInt, "insufficient"
 		}
@@ -199,6 +199,16 @@ func (m *refModel) apply(v *LedgerView, b *refBatch, h uint32, withRates bool) (
 			}
 			if h >= m.era.OneWaySmall && isSmallAsset(t.Conv) {
 				return pegnet.PSMALLOneWayErrorInt, "one-way-small"
+			}
+			// a conversion that cannot be priced leaves the whole batch pending, and that is decided here, transaction by
+			// transaction, before any later transaction of the batch is looked at
+			if _, ok := m.convert(v, h, t.Amount, t.Asset, t.Conv, recTo(ti)); !ok {
+				return 0, "unconvertible"
+			}
+			if m.someWindowUnavailable {
+				if rows := v.Batches[b.hash]; len(rows) == 1 && rows[0].Executed == 0 {
+					return 0, "unconvertible-under-an-admissible-window"
+				}
 			}
 		}
 	}
